@@ -229,20 +229,23 @@ class SVRPEnv(RL4COEnvBase):
         ).all() and (sorted_pi[:, :-graph_size] == 0).all(), "Invalid tour"
 
         # make sure all required skill  levels are met
-        indices = torch.nonzero(actions == 0)
+        # close every tour with a depot visit so that the route that is still open at the end is checked too
+        closed_actions = torch.cat([actions, torch.zeros_like(actions[:, :1])], 1)
+        indices = torch.nonzero(closed_actions == 0)
         skills = torch.cat(
             [torch.zeros(batch_size, 1, 1, device=td.device), td["skills"]], 1
         )
-        skills_ordered = gather_by_index(skills, actions).reshape(
-            [batch_size, actions.size(-1), 1]
+        skills_ordered = gather_by_index(skills, closed_actions).reshape(
+            [batch_size, closed_actions.size(-1), 1]
         )
         batch = start = tech = 0
         for each in indices:
             if each[0] > batch:
                 start = tech = 0
                 batch = each[0]
-            assert (
-                skills_ordered[batch, start : each[1]] <= td["techs"][batch, tech]
-            ).all(), "Skill level not met"
+            if each[1] > start:  # non-empty route
+                assert (
+                    skills_ordered[batch, start : each[1]] <= td["techs"][batch, tech]
+                ).all(), "Skill level not met"
             start = each[1] + 1  # skip the depot
             tech += 1
